@@ -396,6 +396,39 @@ def who(ctx, key, what, sites, allowed, db=None):
     return ok
 
 
+def who_inherit(ctx, key, what, sites, allowed, db=None, depth=2):
+    """WHO with inheritance (DESIGN §2.4): an effect site outside the allowed functions is accepted when its function is
+    a helper all of whose call sites (in the workspace) lie in allowed functions (or in such helpers, up to `depth`).
+    Returns {helper fn key: [(caller fn, bb)]} for the helpers that were accepted."""
+    db = db or ctx.db
+    allowed_rx = [rx(a) for a in allowed]
+    helpers = {}
+
+    def ok_fn(fn, d):
+        rk = root_key(db, fn)
+        if any(a.search(rk) for a in allowed_rx):
+            return True
+        if d <= 0:
+            return False
+        callers = [(f, bb) for f, bb in db.call_sites("^" + re.escape(db.root_of(fn)["key"]) + "$")]
+        if not callers:
+            return False
+        if all(ok_fn(f, d - 1) for f, bb in callers):
+            helpers[db.root_of(fn)["key"]] = callers
+            return True
+        return False
+    ok = True
+    for fn, bb, idx in sites:
+        rk = root_key(db, fn)
+        if ok_fn(fn, depth):
+            via = "" if any(a.search(rk) for a in allowed_rx) else " (helper called only from allowed sites)"
+            ctx.held("%s:%s" % (key, rk), what + via, where(fn, bb, idx), fn=fn)
+        else:
+            ok = False
+            ctx.violated("%s:%s" % (key, rk), "%s — not an allowed site" % what, where(fn, bb, idx), fn=fn)
+    return helpers
+
+
 def ret_defs(fn):
     """Definitions of the return place: [(bb, kind, payload)], kind in const|expr|call."""
     out = []
